@@ -1,5 +1,442 @@
-import NimaVerif.Model.Edit
-/-! # C09 — placeholder until the theorems are in. -/
+import NimaVerif.Lemmas.ScopedSingle
+/-!
+# C09 — scope selectors address exactly the intended let layer
+
+Model: `splitScopeNpath`, `collectScopeLayers`, `writeScopeLayers`, `onLayer`, and the scoped
+branches of `setValue` / `removeValue` (`Model/Edit.lean`). SPEC (`Model/LayerSpec.lean`): `pyNeg`
+(Python's `xs[-k]`), `atSigns`, `Layer.nonEmpty`, `LayersNormal`, the write vocabulary `Upd` /
+`applyAll` / `Upd.Allowed` (what an edit may touch), `Layer.fpBind` / `Layer.fpSet` (the footprint
+of an edit addressed at a layer), and the decidable side conditions `Layer.plain`,
+`layerSeparated`.
+
+Reading of the statements: the layers of a document are `collectScopeLayers d`, outermost first,
+`n` of them; the selector `@ᵏname` is `atSigns k ++ name` with `name` non-empty and not starting
+with `@`. A scoped edit runs the attrset-level operation on the scratch set
+`layerAsSet d.next l` (`AttributeSet(values=l.scope, attrpath_order=l.order)`) in the state
+`scratchDoc d l`; its run is a list `us` of in-place writes; `applyAllLayer us` / `applyAllNode us`
+is what those writes do to the other places that hold the same objects.
+
+Hypotheses and why they are satisfiable (`ex3` below satisfies all of them, for every layer):
+* `d.noTarget = none`: the document has an edit target (C07/C08 cover the others).
+* `Layer.plain l` (decidable): no binding of the addressed layer has an identifier as value —
+  otherwise `set` deliberately writes through the reference (C11) and may land in another layer
+  (`cex_reference_crosses_layers`).
+* `layerSeparated d idx` (decidable): the other layers and the target share no Binding /
+  AttributeSet object with layer `idx`, and their set identities are below `next`. True of every
+  parsed document (objects are distinct, `next` is above every identity in use).
+-/
 namespace Nima.C09
+
+open Node
+
+/-! ## 1. Selector syntax -/
+
+theorem split_scope_ats (k : Nat) (name : Text) (hk : 1 ≤ k) (hne : name ≠ [])
+    (hh : name.head? ≠ some '@') :
+    splitScopeNpath (atSigns k ++ name) = .ok (some (k, name)) :=
+  splitScopeNpath_ats k name hk hne hh
+
+theorem split_scope_plain (name : Text) (hh : name.head? ≠ some '@') :
+    splitScopeNpath name = .ok none := splitScopeNpath_plain name hh
+
 theorem split_scope_none : splitScopeNpath "a".toList = .ok none := by decide
+
+/-! ## 2. Layer storage: `collect ∘ write = id` on non-empty layers, idempotence, indexing -/
+
+/-- whatever is written, what is collected back are the layers with a non-empty scope -/
+theorem collect_write_general (ls : List Layer) (r : Option Layer) (d : Doc) :
+    collectScopeLayers (writeScopeLayers ls r d) = ls.filter Layer.nonEmpty :=
+  collect_write_filter ls r d
+
+theorem collect_write (ls : List Layer) (d : Doc) (h : ∀ l ∈ ls, l.scope ≠ []) :
+    collectScopeLayers (writeScopeLayers ls none d) = ls := by
+  rw [collect_write_filter]
+  apply filter_nonEmpty_of_all
+  intro l hl
+  simpa [Layer.nonEmpty] using h l hl
+
+/-- every collected layer has a non-empty scope (so `collect_write` applies to what was collected) -/
+theorem collected_nonEmpty (d : Doc) : ∀ l ∈ collectScopeLayers d, l.scope ≠ [] := by
+  intro l hl
+  simpa [Layer.nonEmpty] using collect_nonEmpty d l hl
+
+/-- writing establishes the normal form, and on it `write ∘ collect = id` -/
+theorem write_establishes_normal (ls : List Layer) (r : Option Layer) (d : Doc)
+    (h : ∀ l ∈ ls, l.scope ≠ []) : LayersNormal (writeScopeLayers ls r d) :=
+  write_normal ls r d fun l hl => by simpa [Layer.nonEmpty] using h l hl
+
+theorem write_collect (d : Doc) (h : LayersNormal d) :
+    writeScopeLayers (collectScopeLayers d) none d = d := write_collect_normal d h
+
+/-- idempotence: collecting and writing again changes nothing more -/
+theorem write_collect_idem (ls : List Layer) (d : Doc) (h : ∀ l ∈ ls, l.scope ≠ []) :
+    let d' := writeScopeLayers ls none d
+    writeScopeLayers (collectScopeLayers d') none d' = d' := by
+  intro d'
+  exact write_collect_normal d' (write_establishes_normal ls none d h)
+
+/-- indexing: Python's `layers[-k]` is element `n - k` of the outermost-first list, i.e. the
+    `k`-th layer counted from the innermost -/
+theorem neg_index {α} (xs : List α) (k : Nat) (hk : 1 ≤ k) (hkn : k ≤ xs.length) :
+    pyNeg xs k = xs[xs.length - k]? ∧ pyNeg xs k = xs.reverse[k - 1]? :=
+  ⟨pyNeg_eq_getElem xs k hk hkn, pyNeg_eq_reverse xs k hk hkn⟩
+
+theorem neg_index_out_of_range {α} (xs : List α) (k : Nat) (h : k = 0 ∨ xs.length < k) :
+    pyNeg xs k = none := by
+  unfold pyNeg
+  rcases h with h | h
+  · simp [h]
+  · have : ¬ (1 ≤ k ∧ k ≤ xs.length) := by omega
+    simp [this]
+
+/-! ## 3. `set @ᵏname` with `1 ≤ k ≤ n`: exactly layer `n - k` -/
+
+/-- FULL STRENGTH, no side condition. The attrset-level `set` runs on the scratch set built from
+    layer `layers[-k]`; its run is a list `us` of writes that only *add* to AttributeSet objects,
+    all of them objects of that layer or fresh (Binding objects may be assigned anywhere: that is
+    the write through an identifier reference). Afterwards layer `n - k` holds the scratch set's
+    `values` / `attrpath_order`; every other layer, and the target, are what they were up to those
+    by-identity writes; layer trivia, the set's own trivia and the trailing trivia are untouched. -/
+theorem scoped_set_existing_layer (d : Doc) (k : Nat) (name : Text) (v : Node)
+    (hn : d.noTarget = none) (hk : 1 ≤ k) (hne : name ≠ []) (hh : name.head? ≠ some '@')
+    (hkn : k ≤ (collectScopeLayers d).length) :
+    ∃ l us, pyNeg (collectScopeLayers d) k = some l ∧
+      (∀ u ∈ us, u.Allowed true (fun _ => True) (l.fpSet d.next)) ∧
+      (setValueInAttrset (layerAsSet d.next l) false name v (scratchDoc d l)).2 =
+        applyAll us (scratchDoc d l) ∧
+      (setValue (atSigns k ++ name) (.one v) d).1 =
+        (setValueInAttrset (layerAsSet d.next l) false name v (scratchDoc d l)).1 ∧
+      ((setValue (atSigns k ++ name) (.one v) d).1 = .ok () →
+        let d' := (setValue (atSigns k ++ name) (.one v) d).2
+        let S' := applyAllNode us (layerAsSet d.next l)
+        collectScopeLayers d' =
+          listSet ((collectScopeLayers d).map (applyAllLayer us)) ((collectScopeLayers d).length - k)
+            { applyAllLayer us l with scope := S'.setValues, order := S'.setOrder } ∧
+        d'.target = applyAllNode us d.target ∧ d'.noTarget = d.noTarget ∧ d'.tBefore = d.tBefore ∧
+        d'.tAfter = d.tAfter ∧ d'.trailing = d.trailing ∧ d'.scratch = none) := by
+  have hidx : (collectScopeLayers d).length - k < (collectScopeLayers d).length := by omega
+  obtain ⟨l, hl⟩ : ∃ l, (collectScopeLayers d)[(collectScopeLayers d).length - k]? = some l :=
+    ⟨_, List.getElem?_eq_getElem hidx⟩
+  obtain ⟨us, h⟩ := scoped_set_core d k name v hn hk hne hh hkn false (fun _ => True) hl
+    (Or.inr fun _ => trivial) (fun _ _ => trivial) (fun h => by cases h)
+  exact ⟨l, us, by rw [pyNeg_eq_getElem _ k hk hkn, hl], h⟩
+
+/-- the by-identity writes keep every layer's trivia and never empty a layer -/
+theorem writes_keep_layer_trivia (us : List Upd) (l : Layer) :
+    (applyAllLayer us l).bodyBefore = l.bodyBefore ∧ (applyAllLayer us l).bodyAfter = l.bodyAfter ∧
+    (applyAllLayer us l).afterLet = l.afterLet ∧ (applyAllLayer us l).nonEmpty = l.nonEmpty :=
+  applyAllLayer_frame us l
+
+/-- FULL statement of "no other layer nor the body changes", without the `plain` side condition. -/
+def scoped_set_frame_full : Prop :=
+  ∀ (d : Doc) (k : Nat) (name : Text) (v : Node) (l : Layer),
+    d.noTarget = none → 1 ≤ k → name ≠ [] → name.head? ≠ some '@' →
+    k ≤ (collectScopeLayers d).length →
+    (collectScopeLayers d)[(collectScopeLayers d).length - k]? = some l →
+    layerSeparated d ((collectScopeLayers d).length - k) = true →
+    (setValue (atSigns k ++ name) (.one v) d).1 = .ok () →
+    ∀ j, j ≠ (collectScopeLayers d).length - k →
+      (collectScopeLayers (setValue (atSigns k ++ name) (.one v) d).2)[j]? = (collectScopeLayers d)[j]?
+
+/-- `let x = 1; in let y = x; in { }`: the innermost layer's `y` is a reference to `x`. -/
+def refDoc : Doc :=
+  { target := .set 1 [] [] false false,
+    scope := [.bind 2 "x".toList false (.atom "1".toList) [] []],
+    stOrder := [.bind 2 "x".toList false (.atom "1".toList) [] []],
+    stack := [{ scope := [.bind 3 "y".toList false (.ident "x".toList) [] []],
+                order := [.bind 3 "y".toList false (.ident "x".toList) [] []],
+                bodyBefore := [], bodyAfter := [], afterLet := none }],
+    next := 4 }
+
+/-- `set @y 7` addresses the innermost layer, finds `y = x` and writes through the reference:
+    the OUTER layer's `x` becomes 7 (intended: C11 decides reference edits). So the literal frame
+    needs the `plain` side condition. -/
+theorem cex_reference_crosses_layers :
+    (setValue "@y".toList (.one (.atom "7".toList)) refDoc).1 = .ok () ∧
+    layerSeparated refDoc 1 = true ∧
+    (collectScopeLayers (setValue "@y".toList (.one (.atom "7".toList)) refDoc).2)[0]? ≠
+      (collectScopeLayers refDoc)[0]? := by decide
+
+theorem scoped_set_frame_full_false : ¬ scoped_set_frame_full := by
+  intro h
+  have := h refDoc 1 "y".toList (.atom "7".toList)
+    { scope := [.bind 3 "y".toList false (.ident "x".toList) [] []],
+      order := [.bind 3 "y".toList false (.ident "x".toList) [] []],
+      bodyBefore := [], bodyAfter := [], afterLet := none }
+    rfl (by decide) (by decide) (by decide) (by decide) (by decide) (by decide) (by decide) 0
+    (by decide)
+  exact cex_reference_crosses_layers.2.2 this
+
+/-- PARTIAL (decidable side condition `Layer.plain` excludes exactly the reference class): every
+    other layer and the body — the target set with its trivia, the trailing trivia — are literally
+    unchanged; the addressed layer keeps its trivia and does not shrink. -/
+theorem scoped_set_frame_partial (d : Doc) (k : Nat) (name : Text) (v : Node)
+    (hn : d.noTarget = none) (hk : 1 ≤ k) (hne : name ≠ []) (hh : name.head? ≠ some '@')
+    (hkn : k ≤ (collectScopeLayers d).length) {l : Layer}
+    (hl : (collectScopeLayers d)[(collectScopeLayers d).length - k]? = some l)
+    (hplain : l.plain = true)
+    (hsep : layerSeparated d ((collectScopeLayers d).length - k) = true)
+    (hok : (setValue (atSigns k ++ name) (.one v) d).1 = .ok ()) :
+    let d' := (setValue (atSigns k ++ name) (.one v) d).2
+    (∀ j, j ≠ (collectScopeLayers d).length - k →
+      (collectScopeLayers d')[j]? = (collectScopeLayers d)[j]?) ∧
+    (collectScopeLayers d').length = (collectScopeLayers d).length ∧
+    (∃ l', (collectScopeLayers d')[(collectScopeLayers d).length - k]? = some l' ∧
+      l'.bodyBefore = l.bodyBefore ∧ l'.bodyAfter = l.bodyAfter ∧ l'.afterLet = l.afterLet ∧
+      l'.scope.length ≥ l.scope.length) ∧
+    d'.target = d.target ∧ d'.tBefore = d.tBefore ∧ d'.tAfter = d.tAfter ∧
+    d'.trailing = d.trailing :=
+  scoped_set_frame d k name v hn hk hne hh hkn hl hplain hsep hok
+
+/-- "updates / inserts in `L_{n-k}`", at lookup level, for a one-segment name on a plain layer:
+    afterwards layer `n - k` binds the name to `v`, and its names are the old ones (the name
+    appended if it was not bound) — whatever other layers bind the same name to. -/
+theorem scoped_set_binds_in_layer (d : Doc) (k : Nat) (name seg : Text) (v : Node)
+    (hn : d.noTarget = none) (hk : 1 ≤ k) (hne : name ≠ []) (hh : name.head? ≠ some '@')
+    (hkn : k ≤ (collectScopeLayers d).length) {l : Layer}
+    (hl : (collectScopeLayers d)[(collectScopeLayers d).length - k]? = some l)
+    (hfmt : formatNPath currentAnchor name = .ok [seg]) (hplain : l.plain = true)
+    (hok : (setValue (atSigns k ++ name) (.one v) d).1 = .ok ()) :
+    ∃ l' b, (collectScopeLayers (setValue (atSigns k ++ name) (.one v) d).2)[
+        (collectScopeLayers d).length - k]? = some l' ∧
+      findBinding l'.scope seg = some b ∧ b.bindValue? = some v ∧
+      keysOf l'.scope =
+        if (findBinding l.scope seg).isSome then keysOf l.scope else keysOf l.scope ++ [seg] := by
+  obtain ⟨us, _, h1, h2, hres⟩ := scoped_set_core d k name v hn hk hne hh hkn true l.fpBind hl
+    (Or.inl rfl) (fun _ h => h) (fun _ => hplain)
+  obtain ⟨c1, _⟩ := hres hok
+  obtain ⟨S', s1, ⟨b, s2, s3⟩, s4⟩ := set_single_scratch d l v hfmt hplain (by rw [← h2]; exact hok)
+  have hS : applyAllNode us (layerAsSet d.next l) = S' := by
+    rw [h1, applyAll_scratch] at s1
+    simpa [scratchDoc] using s1
+  have hidx : (collectScopeLayers d).length - k < (collectScopeLayers d).length := by omega
+  refine ⟨{ applyAllLayer us l with scope := S'.setValues, order := S'.setOrder }, b, ?_, s2, s3, s4⟩
+  rw [c1, hS]
+  exact listSet_getElem?_self _ _ _ (by simpa using hidx)
+
+/-! ## 4. `set @name` with no layer: one layer is created — unless the path exists in the set -/
+
+/-- `n = 0`, `k = 1`, path not in the set: exactly one layer appears; its scope is the scratch
+    set's (non-empty) `values`; its body trivia are the set's old trivia, which the set loses;
+    the run consists of additions to FRESH set objects only (no Binding object is assigned). -/
+theorem scoped_set_creates_one_layer (d : Doc) (name : Text) (v : Node) (hn : d.noTarget = none)
+    (hne : name ≠ []) (hh : name.head? ≠ some '@') (h0 : collectScopeLayers d = [])
+    (segs : List Text) (hfmt : formatNPath currentAnchor name = .ok segs)
+    (hnp : pathExistsInAttrset d.target segs = false)
+    (hok : (setValue (atSigns 1 ++ name) (.one v) d).1 = .ok ()) :
+    let d' := (setValue (atSigns 1 ++ name) (.one v) d).2
+    ∃ l', collectScopeLayers d' = [l'] ∧ l'.scope ≠ [] ∧ l'.bodyBefore = d.tBefore ∧
+      l'.bodyAfter = d.tAfter ∧ l'.afterLet = none ∧ d'.stack = [] ∧ d'.tBefore = [] ∧
+      d'.tAfter = [] ∧ d'.noTarget = d.noTarget ∧ d'.trailing = d.trailing ∧
+      ((∀ s ∈ setIdList d.target, s < d.next) → d'.target = d.target) := by
+  obtain ⟨us, hus, _, _, hres⟩ := scoped_create_core d name v hn hne hh h0 segs hfmt hnp
+  obtain ⟨c0, c1, c2, c3, c4, c5, c6, c7, _⟩ := hres hok
+  refine ⟨_, c1, c0, rfl, rfl, rfl, c2, c3, c4, c6, c7, fun hfresh => ?_⟩
+  rw [c5]
+  apply applyAllNode_of_disjoint us hus
+  · exact fun _ _ h => h
+  · intro s hs hle
+    have := hfresh s hs
+    omega
+
+/-- … and for a one-segment path that layer holds exactly the new binding -/
+theorem scoped_set_creates_binding (d : Doc) (name : Text) (v : Node) (hn : d.noTarget = none)
+    (hne : name ≠ []) (hh : name.head? ≠ some '@') (h0 : collectScopeLayers d = [])
+    (seg : Text) (hfmt : formatNPath currentAnchor name = .ok [seg])
+    (hnp : pathExistsInAttrset d.target [seg] = false) :
+    (setValue (atSigns 1 ++ name) (.one v) d).1 = .ok () ∧
+    collectScopeLayers (setValue (atSigns 1 ++ name) (.one v) d).2 =
+      [{ scope := [.bind (d.next + 1) seg false v [] []], order := [], bodyBefore := d.tBefore,
+         bodyAfter := d.tAfter, afterLet := none }] := by
+  obtain ⟨us, _, h1, h2, hres⟩ := scoped_create_core d name v hn hne hh h0 [seg] hfmt hnp
+  obtain ⟨s1, s2⟩ := scoped_create_single d name v seg hfmt
+  have hok : (setValue (atSigns 1 ++ name) (.one v) d).1 = .ok () := by rw [h2, s1]
+  obtain ⟨_, c1, _⟩ := hres hok
+  refine ⟨hok, ?_⟩
+  rw [c1]
+  have hS : applyAllNode us (layerAsSet d.next (newLayerOf d)) =
+      .set d.next [.bind (d.next + 1) seg false v [] []] [] true false := by
+    rw [h1, applyAll_scratch] at s2
+    simpa [scratchDoc] using s2
+  rw [hS]
+  rfl
+
+/-- the documented shortcut (`test_set_scope_path_updates_existing_attrset_body`): with no layer
+    present, `@path` for a path that exists in the set edits the set's binding exactly as the
+    unscoped `set path` does, and no layer is created -/
+theorem scoped_shortcut (d : Doc) (name : Text) (v : Node) (hn : d.noTarget = none)
+    (hne : name ≠ []) (hh : name.head? ≠ some '@') (h0 : collectScopeLayers d = [])
+    (segs : List Text) (hfmt : formatNPath currentAnchor name = .ok segs)
+    (hp : pathExistsInAttrset d.target segs = true) :
+    setValue (atSigns 1 ++ name) (.one v) d = setValue name (.one v) d ∧
+    collectScopeLayers (setValue (atSigns 1 ++ name) (.one v) d).2 = [] :=
+  scoped_shortcut_core d name v hn hne hh h0 segs hfmt hp
+
+/-! ## 5. A layer that does not exist: ValueError, document unchanged -/
+
+theorem scoped_missing_layer_set (d : Doc) (k : Nat) (name : Text) (v : Node)
+    (hn : d.noTarget = none) (hk : 1 ≤ k) (hne : name ≠ []) (hh : name.head? ≠ some '@')
+    (hkn : (collectScopeLayers d).length < k)
+    (hnot : ¬ ((collectScopeLayers d).length = 0 ∧ k = 1)) :
+    setValue (atSigns k ++ name) (.one v) d = (.error .value, d) :=
+  setValue_missing_layer d k name v hn hk hne hh hkn hnot
+
+theorem scoped_missing_layer_rm (d : Doc) (k : Nat) (name : Text) (hn : d.noTarget = none)
+    (hk : 1 ≤ k) (hne : name ≠ []) (hh : name.head? ≠ some '@')
+    (hkn : (collectScopeLayers d).length < k) :
+    removeValue (atSigns k ++ name) d = (.error .value, d) :=
+  removeValue_missing_layer d k name hn hk hne hh hkn
+
+/-! ## 6. `rm @ᵏname`: exactly layer `n - k`; it disappears exactly when its last binding went -/
+
+/-- FULL STRENGTH, no side condition: the attrset-level `rm` runs on the scratch set of
+    `layers[-k]`; its writes stay within the objects of that layer (or fresh ones). If the scratch
+    set ends up empty the layer is deleted from the list and nothing else is; when it was the only
+    layer, the set gets the layer's body trivia back. Otherwise the layer holds what is left. -/
+theorem scoped_rm_layer (d : Doc) (k : Nat) (name : Text) (hn : d.noTarget = none)
+    (hk : 1 ≤ k) (hne : name ≠ []) (hh : name.head? ≠ some '@')
+    (hkn : k ≤ (collectScopeLayers d).length) :
+    ∃ l us, pyNeg (collectScopeLayers d) k = some l ∧
+      (∀ u ∈ us, u.Allowed false l.fpBind (l.fpSet d.next)) ∧
+      (removeValueInAttrset (layerAsSet d.next l) name (scratchDoc d l)).2 =
+        applyAll us (scratchDoc d l) ∧
+      (removeValue (atSigns k ++ name) d).1 =
+        (removeValueInAttrset (layerAsSet d.next l) name (scratchDoc d l)).1 ∧
+      ((removeValue (atSigns k ++ name) d).1 = .ok () →
+        let d' := (removeValue (atSigns k ++ name) d).2
+        let S' := applyAllNode us (layerAsSet d.next l)
+        let L' := (collectScopeLayers d).map (applyAllLayer us)
+        let idx := (collectScopeLayers d).length - k
+        (S'.setValues = [] → collectScopeLayers d' = L'.eraseIdx idx ∧
+          ((collectScopeLayers d).length ≠ 1 → d'.tBefore = d.tBefore ∧ d'.tAfter = d.tAfter) ∧
+          ((collectScopeLayers d).length = 1 →
+            d'.tBefore = (if l.bodyBefore.isEmpty then d.tBefore else l.bodyBefore) ∧
+            d'.tAfter = l.bodyAfter ++ d.tAfter.filter (!l.bodyAfter.contains ·))) ∧
+        (S'.setValues ≠ [] → collectScopeLayers d' =
+            listSet L' idx { applyAllLayer us l with scope := S'.setValues, order := S'.setOrder } ∧
+          d'.tBefore = d.tBefore ∧ d'.tAfter = d.tAfter) ∧
+        d'.target = applyAllNode us d.target ∧ d'.noTarget = d.noTarget ∧ d'.scratch = none) := by
+  have hidx : (collectScopeLayers d).length - k < (collectScopeLayers d).length := by omega
+  obtain ⟨l, hl⟩ : ∃ l, (collectScopeLayers d)[(collectScopeLayers d).length - k]? = some l :=
+    ⟨_, List.getElem?_eq_getElem hidx⟩
+  obtain ⟨us, h⟩ := scoped_rm_core d k name hn hk hne hh hkn hl
+  exact ⟨l, us, by rw [pyNeg_eq_getElem _ k hk hkn, hl], h⟩
+
+/-- On a separated document: the target is literally unchanged, and either layer `n - k` is gone
+    and the list is otherwise literally the old one, or every other layer is literally unchanged
+    and layer `n - k` is still there, non-empty, with its trivia. (`rm` never writes through
+    references, so no `plain` condition is needed.) -/
+theorem scoped_rm_prunes_exactly (d : Doc) (k : Nat) (name : Text) (hn : d.noTarget = none)
+    (hk : 1 ≤ k) (hne : name ≠ []) (hh : name.head? ≠ some '@')
+    (hkn : k ≤ (collectScopeLayers d).length) {l : Layer}
+    (hl : (collectScopeLayers d)[(collectScopeLayers d).length - k]? = some l)
+    (hsep : layerSeparated d ((collectScopeLayers d).length - k) = true)
+    (hok : (removeValue (atSigns k ++ name) d).1 = .ok ()) :
+    let d' := (removeValue (atSigns k ++ name) d).2
+    let idx := (collectScopeLayers d).length - k
+    d'.target = d.target ∧
+    (collectScopeLayers d' = (collectScopeLayers d).eraseIdx idx ∨
+      ((∀ j, j ≠ idx → (collectScopeLayers d')[j]? = (collectScopeLayers d)[j]?) ∧
+       (collectScopeLayers d').length = (collectScopeLayers d).length ∧
+       ∃ l', (collectScopeLayers d')[idx]? = some l' ∧ l'.scope ≠ [] ∧
+         l'.bodyBefore = l.bodyBefore ∧ l'.bodyAfter = l.bodyAfter ∧ l'.afterLet = l.afterLet ∧
+         d'.tBefore = d.tBefore ∧ d'.tAfter = d.tAfter)) :=
+  scoped_rm_frame d k name hn hk hne hh hkn hl hsep hok
+
+/-- "removes from `L_{n-k}`", at lookup level, for a one-segment name: the scratch set of layer
+    `n - k` loses exactly the binding found under that name (so a name defined once is unbound
+    afterwards); if that was its last binding the layer is pruned (`scoped_rm_layer` says which
+    list remains). `DistinctItems` (decidable): the layer's bindings are distinct objects. -/
+theorem scoped_rm_unbinds_in_layer (d : Doc) (k : Nat) (name seg : Text)
+    (hn : d.noTarget = none) (hk : 1 ≤ k) (hne : name ≠ []) (hh : name.head? ≠ some '@')
+    (hkn : k ≤ (collectScopeLayers d).length) {l : Layer}
+    (hl : (collectScopeLayers d)[(collectScopeLayers d).length - k]? = some l)
+    (hfmt : formatNPath currentAnchor name = .ok [seg]) (hdist : DistinctItems l.scope = true)
+    (hok : (removeValue (atSigns k ++ name) d).1 = .ok ()) :
+    ∃ b l₁ l₂, l.scope = l₁ ++ b :: l₂ ∧ b.isBind = true ∧ b.bindName? = some seg ∧
+      (l₁ ++ l₂ ≠ [] →
+        ∃ l', (collectScopeLayers (removeValue (atSigns k ++ name) d).2)[
+            (collectScopeLayers d).length - k]? = some l' ∧ l'.scope = l₁ ++ l₂ ∧
+          ((keysOf l.scope).count seg ≤ 1 → findBinding l'.scope seg = none)) ∧
+      (l₁ ++ l₂ = [] →
+        (collectScopeLayers (removeValue (atSigns k ++ name) d).2).length =
+          (collectScopeLayers d).length - 1) := by
+  obtain ⟨us, _, h1, h2, hres⟩ := scoped_rm_core d k name hn hk hne hh hkn hl
+  obtain ⟨c1, c2, _⟩ := hres hok
+  obtain ⟨S', b, l₁, l₂, s1, s2, s3, s4, s5⟩ :=
+    rm_single_scratch d l hfmt hdist (by rw [← h2]; exact hok)
+  have hS : applyAllNode us (layerAsSet d.next l) = S' := by
+    rw [h1, applyAll_scratch] at s1
+    simpa [scratchDoc] using s1
+  have hidx : (collectScopeLayers d).length - k < (collectScopeLayers d).length := by omega
+  refine ⟨b, l₁, l₂, s2, s3, s4, fun hne' => ?_, fun he => ?_⟩
+  · have hne'' : (applyAllNode us (layerAsSet d.next l)).setValues ≠ [] := by rw [hS, s5]; exact hne'
+    obtain ⟨e1, _⟩ := c2 hne''
+    refine ⟨{ applyAllLayer us l with scope := S'.setValues, order := S'.setOrder }, ?_, s5, ?_⟩
+    · rw [e1, hS]
+      exact listSet_getElem?_self _ _ _ (by simpa using hidx)
+    · intro hu
+      apply findBinding_none_of_not_mem
+      simp only [s5]
+      rw [s2, keysOf_split l₁ l₂ s3 s4, List.count_append, List.count_cons_self] at hu
+      rw [keysOf_append, List.mem_append]
+      rintro (h | h)
+      · exact absurd (List.count_pos_iff.2 h) (by omega)
+      · exact absurd (List.count_pos_iff.2 h) (by omega)
+  · have he' : (applyAllNode us (layerAsSet d.next l)).setValues = [] := by rw [hS, s5]; exact he
+    rw [(c1 he').1, List.length_eraseIdx_of_lt (by simpa using hidx), List.length_map]
+
+/-! ## Non-vacuity: three layers, the name `x` in two of them -/
+
+/-- `let x = 1; in let x = 2; y = 3; in let z = 1; in { a = 1; }` -/
+def ex3 : Doc :=
+  { target := .set 1 [.bind 2 "a".toList false (.atom "1".toList) [] []]
+                     [.bind 2 "a".toList false (.atom "1".toList) [] []] false false,
+    scope := [.bind 3 "x".toList false (.atom "1".toList) [] []],
+    stOrder := [.bind 3 "x".toList false (.atom "1".toList) [] []],
+    stack := [
+      { scope := [.bind 4 "x".toList false (.atom "2".toList) [] [],
+                  .bind 5 "y".toList false (.atom "3".toList) [0] []],
+        order := [.bind 4 "x".toList false (.atom "2".toList) [] [],
+                  .bind 5 "y".toList false (.atom "3".toList) [0] []],
+        bodyBefore := [], bodyAfter := [], afterLet := none },
+      { scope := [.bind 6 "z".toList false (.atom "1".toList) [] []],
+        order := [.bind 6 "z".toList false (.atom "1".toList) [] []],
+        bodyBefore := [7], bodyAfter := [], afterLet := none }],
+    next := 7 }
+
+example : (collectScopeLayers ex3).length = 3 ∧ LayersNormal ex3 := by
+  refine ⟨by decide, ?_, fun h => by cases h⟩
+  intro l hl
+  have : l ∈ ex3.stack := hl
+  simp only [ex3, List.mem_cons, List.not_mem_nil, or_false] at this
+  rcases this with rfl | rfl <;> rfl
+example : ∀ i, i < 3 → layerSeparated ex3 i = true ∧
+    ((collectScopeLayers ex3)[i]?.map Layer.plain) = some true := by decide
+/-- `@@x` edits the middle layer's `x` and nothing else; `@@@x` the outermost one -/
+example :
+    (setValue "@@x".toList (.one (.atom "9".toList)) ex3).1 = .ok () ∧
+    (collectScopeLayers (setValue "@@x".toList (.one (.atom "9".toList)) ex3).2).map Layer.scope =
+      [[.bind 3 "x".toList false (.atom "1".toList) [] []],
+       [.bind 4 "x".toList false (.atom "9".toList) [] [],
+        .bind 5 "y".toList false (.atom "3".toList) [0] []],
+       [.bind 6 "z".toList false (.atom "1".toList) [] []]] ∧
+    (collectScopeLayers (setValue "@@@x".toList (.one (.atom "9".toList)) ex3).2).map Layer.scope =
+      [[.bind 3 "x".toList false (.atom "9".toList) [] []],
+       [.bind 4 "x".toList false (.atom "2".toList) [] [],
+        .bind 5 "y".toList false (.atom "3".toList) [0] []],
+       [.bind 6 "z".toList false (.atom "1".toList) [] []]] := by decide
+/-- `rm @z` deletes the innermost layer and only it; `@@@@x` names no layer -/
+example :
+    (removeValue "@z".toList ex3).1 = .ok () ∧
+    collectScopeLayers (removeValue "@z".toList ex3).2 = (collectScopeLayers ex3).eraseIdx 2 ∧
+    (removeValue "@z".toList ex3).2.target = ex3.target ∧
+    setValue "@@@@x".toList (.one (.atom "9".toList)) ex3 = (.error .value, ex3) := by decide
+/-- creation on a document without layers -/
+example :
+    collectScopeLayers (setValue "@n".toList (.one (.atom "1".toList))
+      { target := ex3.target, tBefore := [5], next := 7 }).2 =
+      [{ scope := [.bind 8 "n".toList false (.atom "1".toList) [] []], order := [],
+         bodyBefore := [5], bodyAfter := [], afterLet := none }] := by decide
+
 end Nima.C09
